@@ -336,6 +336,20 @@ pub fn all() -> Vec<Scenario> {
         symptom_oracles: vec![],
     });
 
+    // F23 / F24: minimised histories found by the seeded search, kept verbatim.
+    v.push(Scenario {
+        id: "F23",
+        props: vec!["C10"],
+        trace: serde_json::from_str(include_str!("traces/F23.json")).expect("embedded trace"),
+        symptom_oracles: vec![],
+    });
+    v.push(Scenario {
+        id: "F24",
+        props: vec!["C10", "C01", "C02"],
+        trace: serde_json::from_str(include_str!("traces/F24.json")).expect("embedded trace"),
+        symptom_oracles: vec![],
+    });
+
     // F4 (known): periodic component written off-period, entity's mutation tick advances.
     let mut p4 = prof();
     p4.app.period = 2;
